@@ -52,6 +52,10 @@ struct SeqOutcome
 // observed state, the run continues so the focus property's checks are still reached.
 SeqOutcome run_seq(const SeqPlan& plan, std::string* trace = nullptr, const std::string& focus = "");
 
+// Optional hook called with a short tag right before a call that deserves its own crash class
+// ("rr_evict": an rr_cache insert that must evict; "" otherwise).  Used by the forked classifier.
+extern void (*g_seq_call_hook)(const char* tag);
+
 // Plan generation -------------------------------------------------------------
 struct GenProfile
 {
